@@ -556,3 +556,51 @@ def code_compressed(repo, members, subsets):
     if len(dres) != 1:
         raise AnalysisError('pipeline fold: Decoder.process_members (compressed) forks into %d paths' % len(dres))
     return eres[0], dres[0], box['st'], rd
+
+
+# ---------------------------------------------------------------------------
+# several uncompressed subsets through one coder state (C06)
+def decode_subsets(repo, members, scripts, coder='Decoder'):
+    """The per-subset loop of process_template_data on one real CoderState: switch_subset_context(k), then the walk over the
+    script of subset k.  Returns [(result, descs, vals, links)] per subset."""
+    n = len(scripts)
+    st = plain_state(repo, False, n)
+    sw = repo.own_method('CoderState', 'switch_subset_context')
+    fi = repo.method(coder, 'process_members')
+    out = []
+    for k, script in enumerate(scripts):
+        r0 = PipeInterp(repo, 'CoderState').run_function(sw, lambda: {'self': st, sw.params[1]: k}, self_class='CoderState')
+        if len(r0) != 1 or not r0[0].ok:
+            raise AnalysisError('pipeline fold: switch_subset_context(%d) could not be folded: %s' % (k, [x.describe() for x in r0]))
+        rd = ScriptReader(script)
+        res = PipeInterp(repo, coder).run_function(fi, lambda: {'self': Obj(coder, {}), 'state': st, 'bit_operator': rd, 'members': list(members)}, self_class=coder)
+        if len(res) != 1:
+            raise AnalysisError('pipeline fold: %s.process_members forks into %d paths on subset %d' % (coder, len(res), k))
+        out.append((res[0], list(st.fields['decoded_descriptors_all_subsets'][k]), list(st.fields['decoded_values_all_subsets'][k]),
+                    dict(st.fields['bitmap_links_all_subsets'][k]), len(rd.values) - rd.k))
+    return out
+
+
+def subset_families():
+    """name -> (members, [script of subset variant A, variant B, ...]): same template, subsets that differ in replication counts,
+    bitmaps and values, and that end inside operator constructs."""
+    f = {}
+    f['delayed replication before a bitmap'] = (
+        [DEL(F31001(), T()), T(12103), OP(222000), OP(236000), DEL(F31001(), B()), Q()],
+        [[1, 2801, 2750, 2, 0, 1, 70], [3, 2801, 2802, 2803, 2750, 2, 1, 0, 80], [0, 2750, 1, 0, 60]])
+    f['template ending inside 201 / 202 / 207 / 208'] = (
+        [T(), OP(201130), OP(202129), OP(207001), OP(208003), T(), E(1015, 'STATION OR SITE NAME', 'CCITT IA5', 32)],
+        [[2801, 2801, b'ABC'], [2700, 2700, b'XYZ']])
+    f['template ending inside 203 and 204'] = (
+        [OP(203012), T(), OP(203255), T(), OP(204004), E(31021, 'ASSOCIATED FIELD SIGNIFICANCE', 'CODE TABLE', 6), T(12103)],
+        [[-100, 2801, 1, 3, 2750], [50, 2801, 1, 5, 2700]])
+    f['bitmap reuse and cancellation'] = (
+        [T(), T(12103), OP(222000), OP(236000), FIX(2, B()), Q(), OP(224000), OP(237000), E(8023, 'FIRST ORDER STATISTICS', 'CODE TABLE', 6), OP(224255), OP(237255)],
+        [[2801, 2750, 1, 0, 70, 4, 2760], [2801, 2750, 0, 1, 80, 4, 2811]])
+    f['data not present and a skipped local descriptor left pending'] = (
+        [E(1001, nbits=7), OP(221001), T(), E(1002, nbits=10), OP(206009)],
+        [[11, 7], [12, 8]])
+    f['cancel back references, new bitmap'] = (
+        [T(), OP(223000), FIX(1, B()), OP(223255), OP(235000), T(12103), OP(232000), DEL(F31001(), B()), OP(232255)],
+        [[2801, 0, 2790, 2750, 1, 0, 2740], [2801, 0, 2790, 2750, 1, 0, 2741]])
+    return f
